@@ -130,6 +130,12 @@ def make_pool(rng):
                 rng.shuffle(pair)
                 pool.extend(pair)
                 break
+    # a union's fallback member (selector without a member of its own, warn mode) next to a regular member of the same
+    # union: what one decode does to the union's tables must not change the next
+    ut, bad, good = rng.choice((("TPMT_SIG_SCHEME", "0001000b", "0014000b"), ("TPMT_RSA_SCHEME", "0001000b", "0014000b"), ("TPMT_ASYM_SCHEME", "0001000b", "0018000b"),
+                                ("TPMT_SIGNATURE", "0001000b0004aabbccdd", "0005000b0004aabbccdd")))
+    pool.append((f"U{ut}-fallback", ut, bytes.fromhex(bad), None, None, False))
+    pool.append((f"U{ut}-member", ut, bytes.fromhex(good), None, None, True))
     rng.shuffle(pool)
     return pool
 
@@ -425,7 +431,7 @@ def run_shard(shard, rec):
     labels = sorted(LAST)
     picks = rng.sample(labels, min(8 if shard.get("tier") != "thorough" else 40, len(labels)))
     # prefer the value-faulted and stand-alone items: they are the ones whose verdicts could have been remembered
-    picks = sorted(set(picks) | {l for l in labels if ":F" in l}, key=lambda l: ("~" not in l and ":S" not in l and ":F" not in l))
+    picks = sorted(set(picks) | {l for l in labels if ":F" in l or ":U" in l}, key=lambda l: ("~" not in l and ":S" not in l and ":F" not in l and ":U" not in l))
     fresh_process_reference([ITEMS[l] for l in picks], rec, LAST)
     for name, ids in classes.items():
         rec.count("encrypted_layouts_seen")
